@@ -241,6 +241,36 @@ CLAIMED["C10"] = (
     "DESIGN.md section 6, C10",
 )
 
+CLAIMED["C01"] = (
+    "Coq theorem for EVERY schema, collection adapter and well-formed object graph (typed; same identifier = same object): "
+    "schema_okb sch rt = true -> load_root (save_root U) = Some U, by invariants of the registering traversal (keys unique, "
+    "closed, every record is the flattening of a sub-object, same-table references point backwards) and a loader invariant "
+    "over the re-registration order; corollaries: same type, n-cycle fixpoint of object and document. Tied to this code by "
+    "schema_okb current T = true for the 8 collection types (vm_compute) where `current` is the generated reading of the 26 "
+    "adapter modules, itself compared on every run with the real JSON documents and the really loaded objects (model save vs "
+    "real document, model load of the real document vs real load) inside coqc, plus a fail-closed inventory of declared "
+    "fields. The pinned tree's three defective rows are refuted by witness in Coq and were repaired in /repo.",
+    "Trusted: Coq kernel/vm_compute; the schema table in harness/aoef.py (correspondence-checked); scalar codecs (JSON text, "
+    "float repr, timestamps, geometry JSON) are interned tokens, observed by the oracle, not modelled; inline objects modelled "
+    "as pseudo-tables; ADAPTERS order and the collection_type discriminator are checked by the inventory and the oracle, not "
+    "by a theorem.",
+    "Rocq/Coq proof (generic schema-driven model, nested induction) + model/implementation correspondence by vm_compute",
+    "DESIGN.md section 6, C01",
+)
+
+CLAIMED["C02"] = (
+    "Coq theorems for every schema, adapter and object: identifiers unique in every top-level list (unconditional); with the "
+    "boolean closure check and a typed object every identifier mentioned anywhere is defined exactly once, the objects defined "
+    "are exactly the distinct reachable ones, nothing is written elsewhere, a same-list reference (sequence parent) points to "
+    "an earlier entry. closure_okb current T = true for the 8 collection types. A boolean audit (closedb), proved sound, is "
+    "evaluated inside coqc on the id skeleton of every real document, and the skeleton is compared with the model's document. "
+    "The pinned tree's PredictionSet / EvaluationSet rows are refuted by witness (dangling identifier) and were repaired.",
+    "Trusted: Coq kernel/vm_compute; the schema table and the JSON-to-skeleton reader of harness/aoef.py; dense tag ids "
+    "(0..n-1) are positions in the model and checked on the real document by the oracle only.",
+    "Rocq/Coq proof + proved-sound audit of real documents + model/implementation correspondence by vm_compute",
+    "DESIGN.md section 6, C02",
+)
+
 NOT_YET = {}
 
 
